@@ -7,6 +7,7 @@ CONSTANTS
   UseMerge = TRUE
   UseSnap = TRUE
   UseDup = TRUE
+  DupElems = FALSE
   BeyondLen = 1
   Reps <- MCReps
   Actors <- MCActors
